@@ -47,6 +47,7 @@ Record c08_case := mkCase {
   c_query : vpred;
   c_research : res (list rentry);   (* research(root, query), get_path(root, path) for every entry *)
   c_in_final : obj;
+  c_probes : list (path * res oref * bool);  (* get_path(root, p) for arbitrary p; whether default= was returned *)
   c_deepcopy : option obj           (* spec validation: copy.deepcopy(root) (python stdlib, independent of boltons) *)
 }.
 
@@ -99,9 +100,22 @@ Definition spec_valid (c : c08_case) : bool :=
       end
   end.
 
+Definition got (g : res oref) : option oref := match g with Ok r => Some r | Raise _ => None end.
+Definition is_raise {A} (r : res A) : bool := match r with Raise _ => true | Ok _ => false end.
+
+Definition probes_agree (c : c08_case) : bool :=
+  forallb (fun e => let '(p, g, d) := e in
+                    res_eqb oref_eqb (get_path (c_in c) p) g && Bool.eqb d (is_raise g)) (c_probes c).
+
+(* get_path on arbitrary paths: Python's indexing rules (Spec.lookup_path) *)
+Definition ok_probes (c : c08_case) : bool :=
+  forallb (fun e => let '(p, g, d) := e in
+                    option_eqb oref_eqb (lookup_path (collect_defs (c_in c)) (c_in c) p) (got g)
+                    && Bool.eqb d (is_raise g)) (c_probes c).
+
 Definition agree (c : c08_case) : bool :=
   let m := model_remap c in
-  spec_valid c &&
+  spec_valid c && probes_agree c &&
   res_eqb obj_eqb (outcome_result m) (canon_res (c_out c))
   && list_eqb vcall_eqb (outcome_calls m) (c_calls c)
   && res_eqb (list_eqb rentry_eqb) (model_research c) (c_research c).
@@ -115,8 +129,6 @@ Definition ok_rebuild (c : c08_case) : bool :=
 Definition ok_untouched (c : c08_case) : bool :=
   obj_eqb (c_in c) (c_in_after c) && obj_eqb (c_in c) (c_in_final c)
   && match c_out c with Ok o => no_mutable_alias o | Raise _ => true end.
-
-Definition got (g : res oref) : option oref := match g with Ok r => Some r | Raise _ => None end.
 
 Definition ok_paths (c : c08_case) : bool :=
   match c_research c with
@@ -135,6 +147,7 @@ Definition paths_known (c : c08_case) : bool :=
 
 Definition c08_verdict (c : c08_case) : verdict :=
   let r := ok_rebuild c in let u := ok_untouched c in let p := ok_paths c in
+  let p := p && ok_probes c in
   (agree c, r && u && p,
    u && (r || imm_backref [] (c_in c)) && (p || paths_known c) && negb (r && p)).
 
